@@ -1,0 +1,78 @@
+// Copyright 2020-2025 Buf Technologies, Inc.
+//
+// Licensed under the Apache License, Version 2.0 (the "License");
+// you may not use this file except in compliance with the License.
+// You may obtain a copy of the License at
+//
+//      http://www.apache.org/licenses/LICENSE-2.0
+//
+// Unless required by applicable law or agreed to in writing, software
+// distributed under the License is distributed on an "AS IS" BASIS,
+// WITHOUT WARRANTIES OR CONDITIONS OF ANY KIND, either express or implied.
+// See the License for the specific language governing permissions and
+// limitations under the License.
+
+//go:build verif
+
+
+package storageos
+
+// Contracts for the gocv verifier (see /verif/DESIGN.md). Comment-only. Author ca-D2: the functions of storageos that
+// had no contract yet (provider options, capability flags, the read closer). Ghost variables d2_*: /verif/specs/C15_os.spec.
+//
+// A disk bucket never accepts external/local paths: the capability is off and both setters of its writer fail.
+//@ func (b *bucket) SetExternalAndLocalPathsSupported() (r)
+//@   property C13 C14 C15
+//@   ensures !r
+//@ func (w *writeObjectCloser) SetExternalPath(s) (err)
+//@   property C13 C14 C15
+//@   ensures always-refused: err != nil && err == storage.ErrSetExternalPathUnsupported
+//@ func (w *writeObjectCloser) SetLocalPath(s) (err)
+//@   property C13 C14 C15
+//@   ensures always-refused: err != nil && err == storage.ErrSetLocalPathUnsupported
+//
+// The read closer: Read reads the opened file and nothing else; Close closes exactly that file and succeeds exactly
+// when the file's Close did (a failure is reported).
+//@ func (r *readObjectCloser) Read(p) (n, err)
+//@   property C13 C14 C15
+//@ func (r *readObjectCloser) Close() (err)
+//@   property C13 C14 C15
+//@   modifies ghost.fail, ghost.wfail, ghost.j_lastFileClose
+//@   ensures success-iff-file-closed: (err == nil) <==> (ghost.j_lastFileClose == nil)
+//@   ensures reported: ghost.fail && !old(ghost.fail) ==> err != nil
+//
+// ---- provider.go / storageos.go: symlinks are followed only if BOTH the provider and the bucket ask for it
+// (closure 0 is the returned option; options are arbitrary function values, so what a list of them does to the
+// record is not derivable at the call sites - what each of the two options does is verified here).
+//@ func ProviderWithSymlinks() (r)
+//@   property C13 C14
+//@   ensures r != nil
+//@   closure 0 ensures enables: provider.symlinks
+// (ReadWriteBucketWithSymlinksIfSupported has a trusted pure contract in /verif/specs/C17_writer.spec (ca-V): its
+// closure cannot be put under contract here without a second declaration.)
+//@ func newReadWriteBucketOptions() (r)
+//@   property C13 C14
+//@   ensures default-off: r != nil && !r.symlinksIfSupported
+//@ func newProvider(options) (r)
+//@   property C13 C14
+//@   modifies heap
+//@   ensures r != nil
+//@   ensures default-off: len(options) == 0 ==> !r.symlinks
+//@   loop 0 invariant provider != nil && (len(options) == 0 ==> !provider.symlinks)
+//@ func NewProvider(options) (r)
+//@   property C13 C14
+//@   modifies heap
+//@   ensures r != nil && typeOf(r) == typeId(*provider)
+//@   ensures default-off: len(options) == 0 ==> !cast(*provider, r).symlinks
+//
+// "If the Provider did not have symlink support, this is a no-op": a provider without the option never opens a
+// symlink-following bucket, and neither does a call without bucket options; the bucket is rooted at the given path.
+//@ func (p *provider) NewReadWriteBucket(rootPath, options) (r, err)
+//@   property C13 C14
+//@   modifies heap, ghost.j_osStat, ghost.d2_follow
+//@   ensures rooted: err == nil ==> r != nil && typeOf(r) == typeId(*bucket) && cast(*bucket, r).rootPath == Normalize(rootPath)
+//@   ensures provider-decides: err == nil && !p.symlinks ==> !cast(*bucket, r).symlinks
+//@   ensures bucket-decides: err == nil && len(options) == 0 ==> !cast(*bucket, r).symlinks
+//@   loop 0 invariant readWriteBucketOptions != nil && (len(options) == 0 ==> !readWriteBucketOptions.symlinksIfSupported)
+//@   canary ensures err != nil
+//@   canary ensures err == nil
